@@ -105,18 +105,31 @@ def evlog_times(ops):
         got = {}
         for (p, t, k) in ev:
             if t not in times.get(p, ()):
-                fails.append(("C17:evlog_times", "event-log entry %s of process %d carries time %r, but its handlers ran at %s" % (
+                fails.append(("C17:evlog_times", "C17:evlog_actions", "event-log entry %s of process %d carries time %r, but its handlers ran at %s" % (
                     k, p, bits_f64(t), sorted(bits_f64(x) for x in times.get(p, ())))))
                 break
             if p in last and bits_f64(t) < bits_f64(last[p]):
-                fails.append(("C17:evlog_times", "event log of process %d goes back in time" % p))
+                fails.append(("C17:evlog_times", "C17:evlog_actions", "event log of process %d goes back in time" % p))
                 break
             last[p] = t
             if k in ("MS", "LS"):
                 got[(p, k)] = got.get((p, k), 0) + 1
         else:
             if got != sent:
-                fails.append(("C17:evlog_times", "sends in the event logs %s vs sends in the trace %s during one call" % (got, sent)))
+                fails.append(("C17:evlog_times", "C17:evlog_actions", "sends in the event logs %s vs sends in the trace %s during one call" % (got, sent)))
+        # every timer operation a handler ISSUED (XCALL lines, written by the process itself) appears once in its event log
+        calls = {}
+        for c in o.get("calls", []):
+            if c[0] == "XCALL":
+                k = "TC" if c[2] == "CANCEL" else "TS"
+                calls[(int(c[1]), k)] = calls.get((int(c[1]), k), 0) + 1
+        if o.get("calls"):
+            logged = {}
+            for (p, t, k) in ev:
+                if k in ("TS", "TC"):
+                    logged[(p, k)] = logged.get((p, k), 0) + 1
+            if logged != calls:
+                fails.append(("C17:evlog_actions", "timer operations issued by the handlers %s vs entries in the event logs %s" % (calls, logged)))
     return fails
 
 
@@ -433,5 +446,5 @@ def monitor(sc, impl_lines):
 
 CLAUSES = ["C05:sent_before", "C05:link_enabled", "C05:payload", "C05:copies", "C05:drop_rate", "C05:same_node",
            "C05:delivered", "C06:time_monotone", "C06:arrival", "C06:timer_exact", "C06:step", "C06:steps", "C06:duration",
-           "C06:until_no_events", "C06:until_local", "C07:timer_contract", "C07:api_contract", "C17:evlog_times", "C08:inflight_cancelled",
+           "C06:until_no_events", "C06:until_local", "C07:timer_contract", "C07:api_contract", "C17:evlog_times", "C17:evlog_actions", "C08:inflight_cancelled",
            "C08:silent_while_crashed", "C17:ids", "C17:one_fate", "C17:counters", "C17:read_local"]
